@@ -88,8 +88,10 @@ type Teamserver struct {
 
 	Agents    agent.Agents
 	AgentsMtx sync.Mutex
-	Listeners []*Listener
-	Endpoints []*Endpoint
+	Listeners    []*Listener
+	ListenersMtx sync.Mutex
+	Endpoints    []*Endpoint
+	EndpointsMtx sync.Mutex
 
 	Settings struct {
 		Compiler64 string
